@@ -44,7 +44,7 @@ var modPaths = []modPool{
 var modLocalDirs = []string{"../local", "./sub/mod", "../my mod"} // the last one needs quoting
 var modGodebugKeys = []string{"panicnil", "http2client", "x509sha1"}
 var modTools = []string{"example.com/a/cmd/t", "golang.org/x/tools/cmd/stringer", "example.com/b/tool"}
-var modGoVersions = []string{"1.19", "1.20", "1.21", "1.22.1", "1.23", "1.9", "1.5", "1.21rc1", "1.100"}
+var modGoVersions = []string{"1.19", "1.20", "1.21", "1.22.1", "1.23", "1.9", "1.5", "1.21rc1", "1.100", "1.22rc1", "1.25rc2", "1.20rc3"}
 var modToolchains = []string{"go1.21.0", "go1.22.1", "go1.23.4"}
 var modOwnVersions = []string{"v1.0.0", "v1.1.0", "v1.2.0", "v1.3.0-rc.1", "v1.9.9", "v2.0.0+incompatible", "v2.1.0+incompatible"}
 var modRationales = []string{"", "bad release", "security: CVE-1\nuse v1.2.4 instead"}
@@ -988,8 +988,14 @@ func tokenLess(a, b []string) bool {
 
 // checkBlockOrder verifies that every block of syn is in its documented order.
 func checkBlockOrder(syn *modfile.FileSyntax, goV string) string {
-	goVUnclear := strings.ContainsAny(goV, "abcdefghijklmnopqrstuvwxyz")
-	semverExclude := goV != "" && !goVUnclear && ref.SemverCompare("v"+goV, "v1.21") >= 0
+	// "from go 1.21": a pre-release such as 1.22rc1 or 1.20rc3 belongs to the language version it is a
+	// pre-release of; only for pre-releases of 1.21 itself does the documentation leave the side open
+	lang := goV
+	if i := strings.IndexAny(goV, "abcdefghijklmnopqrstuvwxyz"); i >= 0 {
+		lang = goV[:i]
+	}
+	goVUnclear := lang != goV && ref.SemverCompare("v"+lang, "v1.21") == 0
+	semverExclude := goV != "" && !goVUnclear && ref.SemverCompare("v"+lang, "v1.21") >= 0
 	for _, st := range syn.Stmt {
 		blk, ok := st.(*modfile.LineBlock)
 		if !ok {
